@@ -75,7 +75,14 @@ func (f *InputField) Resolve(field *Field, args map[string]interface{}) (result 
 	case typeStr:
 		result = f.Type
 	case defaultValueStr:
-		result = f.Default
+		switch f.Default.(type) {
+		case nil, string:
+			result = f.Default
+		default:
+			// An enum, list or input object default is a value as well,
+			// give it as GraphQL text.
+			result = valueString(f.Default)
+		}
 	}
 	return
 }
